@@ -269,6 +269,17 @@ func init() {
 		e.event(strArg(e, a[0]))
 		return nil
 	}
+	// verifFireTimers: time passes - every armed timer somebody waits for expires; returns how many did
+	h["verifFireTimers"] = func(e *Exec, c *frame, fn *ssa.Function, a []Value) Value {
+		ts := e.waitedTimers()
+		for _, t := range ts {
+			t.tstate = 1
+		}
+		return e.intT(int64(len(ts)))
+	}
+	h["verifArmedTimers"] = func(e *Exec, c *frame, fn *ssa.Function, a []Value) Value {
+		return e.intT(int64(len(e.waitedTimers())))
+	}
 	// verifQuiesce: let every other goroutine run until none of them can continue
 	h["verifQuiesce"] = func(e *Exec, c *frame, fn *ssa.Function, a []Value) Value {
 		e.quiesce(e.curG(c))
@@ -509,14 +520,17 @@ func init() {
 
 	// time.After(d): abstract time. The channel may deliver at any later scheduling point; d == 0 is ready at once.
 	reg("time.After", func(e *Exec, c *frame, fn *ssa.Function, a []Value) Value {
-		e.stubUsed("time.After: abstract timer channel (may fire at any later point; every order of expiry and other events is explored)")
+		e.stubUsed("time.After: abstract timer channel: zero delays expire at once; other timers expire when the harness lets time pass or when nothing else in the system can run")
 		ch := e.newChan(1, nil)
 		ch.elemT = e.namedType("time", "Time")
 		ch.timer = true
 		ch.label = "(timer)"
 		if d := a[0].(*Term); d.IsConst() && d.ConstS() <= 0 {
 			ch.immediate = true
+			ch.tstate = 1
 		}
+		ts, _ := e.hostState["timers"].([]*Chan)
+		e.hostState["timers"] = append(ts, ch)
 		return ch
 	})
 }
@@ -531,22 +545,70 @@ var _ = strings.HasPrefix
 // min/maxDuration. It is exact except when the two instants are 2^63 ns apart to within one second
 // (then it saturates up to 1 s early), which no modelled clock value reaches.
 func init() {
-	reg("(time.Time).Sub", func(e *Exec, c *frame, fn *ssa.Function, a []Value) Value {
-		t, u := a[0].(*Agg), a[1].(*Agg)
-		tw, uw := t.elems[0].(*Term), u.elems[0].(*Term)
-		mono := func(w *Term) bool { return w.IsConst() && w.ConstU()>>63 != 0 }
-		if mono(tw) || mono(uw) {
-			return e.runFunction(c, 0, fn, a, nil)
+	// hasMono reports whether a wall word certainly carries / certainly lacks a monotonic reading.
+	hasMono := func(e *Exec, w *Term) (yes, known bool) {
+		if w.IsConst() {
+			return w.ConstU()>>63 != 0, true
 		}
-		e.stubUsed("time.Time.Sub: native saturating (sec*1e9+nsec) difference, no monotonic readings")
+		top := e.tt.Extract(w, 63, 63)
+		if top.IsConst() {
+			return top.ConstU() != 0, true
+		}
+		return false, false
+	}
+	sub := func(e *Exec, c *frame, fn *ssa.Function, t, u *Agg) (Value, bool) {
+		tw, uw := t.elems[0].(*Term), u.elems[0].(*Term)
+		tm, tk := hasMono(e, tw)
+		um, uk := hasMono(e, uw)
+		if !tk || !uk {
+			return nil, false
+		}
 		tt := e.tt
-		nsec := func(w *Term) *Term { return tt.Bin(OpBvAnd, w, tt.BV(64, 0x3fffffff)) }
-		dsec := tt.Bin(OpSub, t.elems[1].(*Term), u.elems[1].(*Term))
+		if tm && um {
+			// both monotonic: the difference of the monotonic readings (package time: subMono)
+			e.stubUsed("time.Time.Sub / time.Since: native; two monotonic readings differ by their monotonic parts")
+			te, ue := t.elems[1].(*Term), u.elems[1].(*Term)
+			d := tt.Bin(OpSub, te, ue)
+			over := tt.And(tt.Cmp(OpSLt, d, tt.BV(64, 0)), tt.Cmp(OpSLt, ue, te))
+			under := tt.And(tt.Cmp(OpSLt, tt.BV(64, 0), d), tt.Cmp(OpSLt, te, ue))
+			return tt.Ite(over, tt.BV(64, 1<<63-1), tt.Ite(under, tt.BV(64, 1<<63), d)), true
+		}
+		e.stubUsed("time.Time.Sub / time.Since: native saturating (sec*1e9+nsec) difference when a side has no monotonic reading")
+		// seconds since year 1 and nanoseconds of either representation
+		secOf := func(a *Agg, mono bool) *Term {
+			if !mono {
+				return a.elems[1].(*Term)
+			}
+			w := a.elems[0].(*Term)
+			return tt.Bin(OpAdd, tt.BV(64, 59453308800), tt.ZExt(tt.Extract(w, 62, 30), 64))
+		}
+		nsec := func(w *Term) *Term { return tt.ZExt(tt.Extract(w, 29, 0), 64) }
+		dsec := tt.Bin(OpSub, secOf(t, tm), secOf(u, um))
 		dn := tt.Bin(OpSub, nsec(tw), nsec(uw))
 		const lim = 9223372036
 		n := tt.Bin(OpAdd, tt.Bin(OpMul, dsec, tt.BV(64, 1000000000)), dn)
 		hi := tt.Cmp(OpSLe, tt.BV(64, lim), dsec)
 		lo := tt.Cmp(OpSLe, dsec, tt.BV(64, ^uint64(lim)+1))
-		return tt.Ite(hi, tt.BV(64, 1<<63-1), tt.Ite(lo, tt.BV(64, 1<<63), n))
+		return tt.Ite(hi, tt.BV(64, 1<<63-1), tt.Ite(lo, tt.BV(64, 1<<63), n)), true
+	}
+	reg("(time.Time).Sub", func(e *Exec, c *frame, fn *ssa.Function, a []Value) Value {
+		if v, ok := sub(e, c, fn, a[0].(*Agg), a[1].(*Agg)); ok {
+			return v
+		}
+		return e.runFunction(c, 0, fn, a, nil)
+	})
+	reg("time.Since", func(e *Exec, c *frame, fn *ssa.Function, a []Value) Value {
+		now := e.timeNow().(*Agg)
+		if v, ok := sub(e, c, fn, now, a[0].(*Agg)); ok {
+			return v
+		}
+		panic(e.unsupported("time.Since of a Time whose monotonic flag is symbolic"))
+	})
+	reg("time.Until", func(e *Exec, c *frame, fn *ssa.Function, a []Value) Value {
+		now := e.timeNow().(*Agg)
+		if v, ok := sub(e, c, fn, a[0].(*Agg), now); ok {
+			return v
+		}
+		panic(e.unsupported("time.Until of a Time whose monotonic flag is symbolic"))
 	})
 }
